@@ -267,7 +267,7 @@ def _c01_sweeps(run):
 def C02(run):
     q = run.quick()
     def plans(L):
-        return [["dfs", "4" if q else "6"], ["dfs", "2", "all"] if q else ["dfs", "3", "all"], ["rand", "1500" if q else "25000"]]
+        return [["--noops", "dfs", "4" if q else "6"], ["--noops", "dfs", "2", "all"] if q else ["--noops", "dfs", "3", "all"], ["--noops", "rand", "1500" if q else "25000"]]
     mcs, tot, samples = _load_check(run, "C02", plans, what="cbor_load acceptance and tree", mc_cfgs=("MC_Decoder_L1", "MC_Decoder_L2", "MC_Decoder_L3"))
     _load_evidence(run, mcs, tot, samples, DISTINCT_RULE + "inputs: every token string the decoder keeps reading up to %s heads (16 head classes + huge counts, argument widths cycled), every pair/triple of ALL concrete head variants, seeded random items + single-edit neighbours" % ("4" if q else "6"), LOAD_ASSUME)
 
@@ -275,7 +275,7 @@ def C02(run):
 def C05(run):
     q = run.quick()
     def plans(L):
-        return [["dfs", "4" if q else "6"], ["rand", "2500" if q else "30000"], ["--dedup", "bytes", "2"]]
+        return [["--noops", "dfs", "4" if q else "6"], ["--noops", "rand", "2500" if q else "30000"], ["--noops", "--dedup", "bytes", "2"]]
     mcs, tot, samples = _load_check(run, "C05", plans, what="cbor_load failure report", mc_cfgs=("MC_Decoder_L1", "MC_Decoder_L2", "MC_Decoder_L3"))
     _load_evidence(run, mcs, tot, samples, DISTINCT_RULE + "inputs as C02 (every proper prefix of every enumerated item is in the token enumeration; truncations and corruptions from the random single-edit neighbours); result struct pre-filled with 0xAB", LOAD_ASSUME)
 
@@ -285,12 +285,12 @@ def C19(run):
     Ls = (1, 2, 3, None) if q else (1, 2, 3, 8, 64, None)
     def plans(L):
         if L is not None and L <= 8:
-            p = [["nest"]]
+            p = [["--noops", "nest"]]
             if L <= 3:
-                p.append(["dfs", "4" if q else "5"])
+                p.append(["--noops", "dfs", "4" if q else "5"])
         else:
             # deep executions are judged end to end (the step-by-step machine comparison is quadratic in depth)
-            p = [["E2E", "nest", "0x81" if q else "0xff"], ["rand", "300" if q else "3000"]]
+            p = [["E2E", "--noops", "nest", "0x81" if q else "0xff"], ["--noops", "rand", "300" if q else "3000"]]
         return p
     mcs, tot, samples = _load_check(run, "C19", plans, Ls=Ls, what="nesting limit", mc_cfgs=("MC_Decoder_L1", "MC_Decoder_L2", "MC_Decoder_L3"))
     # native stack: the same nesting families on a thread with a small fixed stack, optimised build, no sanitizer
